@@ -151,7 +151,59 @@ int main(int argc, char** argv) {
   f2.chunk = 256;
   f2.rule = "pairs over re-spaced variants (1/31/63/64/65 spaces after structural tokens) of the larger texts";
 
+  // long keys with an escape at every offset relative to the vector blocks, spelled escaped on one side and
+  // plainly (where JSON allows) on the other
+  vr::Family f4;
+  f4.name = "LK_long_escaped_keys";
+  f4.count = 71ull * 71 * 5 * 3;
+  f4.group = "LK";
+  f4.chunk = 256;
+  f4.rule = "keys x^p ESC y^q for p,q in 0..70 and ESC in {\\u0041, \\/, \\n, \\\", \\\\}: (0) target spelled with the escape, source with the plain character (A, /) - must match by decoded value; (1) same escaped spelling on both sides, replace + append; (2) nested merge below the long key";
+  static const char* kEsc[5] = {"\\u0041", "\\/", "\\n", "\\\"", "\\\\"};
+  static const char* kPlain[5] = {"A", "/", nullptr, nullptr, nullptr};
   vr::CheckFn check = [&](const vr::Family& f, uint64_t idx, vr::Ctx& ctx) {
+    if (f.name[1] == 'K') {
+      unsigned mode = (unsigned)(idx % 3);
+      idx /= 3;
+      unsigned ek = (unsigned)(idx % 5);
+      idx /= 5;
+      unsigned q = (unsigned)(idx % 71), p = (unsigned)(idx / 71);
+      std::string KE = "\"" + std::string(p, 'x') + kEsc[ek] + std::string(q, 'y') + "\"";
+      std::string t, s;
+      if (mode == 0) {
+        if (!kPlain[ek]) {
+          ctx.skip();
+          return;
+        }
+        std::string KP = "\"" + std::string(p, 'x') + kPlain[ek] + std::string(q, 'y') + "\"";
+        t = "{" + KE + ":1,\"b\":{\"c\":1}}";
+        s = "{" + KP + ":2}";
+      } else if (mode == 1) {
+        t = "{" + KE + ":1}";
+        s = "{" + KE + ":{\"z\":3},\"n\":4}";
+      } else {
+        t = "{\"b\":1," + KE + ":{\"k\":1}}";
+        s = "{" + KE + ":{\"k\":2,\"j\":[]}}";
+      }
+      ref::Result rt = ref::parse(t), rs = ref::parse(s);
+      ctx.eval();
+      ctx.nontriv();
+      std::string desc = "target=" + t + "  source=" + s;
+      if (ctx.want_sample) ctx.sample(desc);
+      if (!rt.ok || !rs.ok) {
+        ctx.violation("harness", "harness_generator", desc, "harness error: generated text invalid");
+        return;
+      }
+      ExactBuf tb(t), sb(s);
+      std::string out = sonic_json::UpdateLazy(sonic_json::StringView(tb.p, tb.n), sonic_json::StringView(sb.p, sb.n));
+      ref::Result r = ref::parse(out);
+      ref::Value exp = mergeL(rt.v, rs.v);
+      if (!r.ok)
+        ctx.violation("lazy_invalid_output", "lazy_invalid_output_long_key", desc, "UpdateLazy returned %s which is not valid JSON", out.substr(0, 300).c_str());
+      else if (!ref::equal(r.v, exp))
+        ctx.violation("lazy_result", "lazy_result_long_key", desc, "UpdateLazy returned %s, expected a value equal to %s", out.substr(0, 300).c_str(), ref::show(exp).substr(0, 300).c_str());
+      return;
+    }
     const bool sp = f.name == "LZ_pairs_spaced";
     const bool sd = f.name == "LZ_shape_depth2";
     const auto& TW = sd ? WD : sp ? Ws : W;
@@ -181,7 +233,7 @@ int main(int argc, char** argv) {
     if (ref::has_dup_keys(r.v)) ctx.violation("lazy_dup_keys", "lazy_dup_keys", desc, "result %s has duplicate keys", out.c_str());
   };
 
-  std::vector<vr::Family> fams = {f1, f2, f3};
+  std::vector<vr::Family> fams = {f1, f2, f3, f4};
   if (args.replay) return R.replay_one(fams, check);
   const std::string only = args.get("only");
   for (auto& f : fams)
